@@ -741,6 +741,17 @@ func check(in, obs string) string {
 				}
 			}
 		}
+	case "rnp":
+		// FIPS 204 Algorithm 30 recomputed with x/crypto SHAKE128: every 23-bit
+		// candidate below q, q-1 included, is accepted, in stream order
+		want, _ := rejNTTRef(hx.UH(f[2]))
+		if got := hexPoly(obs); got != want {
+			for i := range want {
+				if got[i] != want[i] {
+					return fmt.Sprintf("RejNTTPoly coefficient %d = %d, FIPS 204 Algorithm 30 on the SHAKE128 stream gives %d (%s)", i, got[i], want[i], tag)
+				}
+			}
+		}
 	case "intt":
 		p := hexPoly(f[2])
 		if canonical(p) && imldsa.VerifNTT(hexPoly(obs)) != p {
